@@ -35,6 +35,14 @@ var c9Seen = map[string]bool{}
 func c9Reserved(k string) bool { return k == "_opid" || k == "_cid" || k == "_timeout" }
 
 func c9UserHeaders(r *Rng) map[string]string {
+	if r.Chance(30) {
+		t, shape := c9PickSize(r, 1<<17)
+		if shape == "many" && t > 9000 { // the model driver is quadratic in the number of pairs
+			t = 8192 - 160 + r.Intn(320)
+		}
+		Stat("pure-user-block:" + c9SizeClass(t) + "/" + shape)
+		return c9SizedHeaders(r, t, shape, "u")
+	}
 	m := genHeaders(r, true)
 	for k := range m {
 		if c9Reserved(k) {
@@ -129,8 +137,13 @@ func c9CliOut(ctx frugal.FContext) string {
 // carries: the main path passes the real counter (identity); a replayed line cannot set the
 // process counter, so the fresh op id is translated to the line's numbering.
 func c9Srv(f *frugal.FProtocolFactory, wire []byte, lineCtr *uint64) (out string, sctx frugal.FContext, rest []byte, base uint64, err error) {
-	buf := thrift.NewTMemoryBuffer()
-	buf.Write(wire)
+	return c9SrvK(f, wire, lineCtr, 0)
+}
+
+// c9SrvK: k = 0 reads from a thrift.TMemoryBuffer (one Read returns everything); k > 0 from a
+// reader that hands out at most k bytes per Read (a socket, a bufio window, a base64 decoder).
+func c9SrvK(f *frugal.FProtocolFactory, wire []byte, lineCtr *uint64, k int) (out string, sctx frugal.FContext, rest []byte, base uint64, err error) {
+	buf := c9NewSource(wire, k)
 	proto := f.GetProtocol(buf)
 	var after uint64
 	o := guard(20*time.Second, func() {
@@ -149,7 +162,7 @@ func c9Srv(f *frugal.FProtocolFactory, wire []byte, lineCtr *uint64) (out string
 	if err != nil {
 		return fmt.Sprintf("%s ctr=%d", errClass(err), ctr), nil, nil, base, err
 	}
-	rest = append([]byte{}, buf.Bytes()...)
+	rest = buf.Rest()
 	req := sctx.RequestHeaders()
 	opid := c9OpID(sctx)
 	if lc != base && req["_opid"] == strconv.FormatUint(base+1, 10) {
@@ -162,8 +175,11 @@ func c9Srv(f *frugal.FProtocolFactory, wire []byte, lineCtr *uint64) (out string
 }
 
 func c9Rsp(f *frugal.FProtocolFactory, ctx frugal.FContext, wire []byte) (out string, rest []byte, err error) {
-	buf := thrift.NewTMemoryBuffer()
-	buf.Write(wire)
+	return c9RspK(f, ctx, wire, 0)
+}
+
+func c9RspK(f *frugal.FProtocolFactory, ctx frugal.FContext, wire []byte, k int) (out string, rest []byte, err error) {
+	buf := c9NewSource(wire, k)
 	proto := f.GetProtocol(buf)
 	if o := guard(20*time.Second, func() { err = proto.ReadResponseHeader(ctx) }); o != "" {
 		return o, nil, nil
@@ -171,7 +187,7 @@ func c9Rsp(f *frugal.FProtocolFactory, ctx frugal.FContext, wire []byte) (out st
 	if err != nil {
 		return errClass(err), nil, err
 	}
-	rest = append([]byte{}, buf.Bytes()...)
+	rest = buf.Rest()
 	return fmt.Sprintf("ok resp=%s rest=%s", pairs(ctx.ResponseHeaders()), hx(rest)), rest, nil
 }
 
@@ -351,8 +367,13 @@ func c9Call(r *Rng) {
 	}
 
 	// ---- handler side ----
-	out, sctx, rest, base, err := c9Srv(fac.f, wire, nil)
+	kq := c9Chunk(r)
+	out, sctx, rest, base, err := c9SrvK(fac.f, wire, nil, kq)
 	srvLine := fmt.Sprintf("c9srv %s %d", hx(wire), base)
+	if kq > 0 {
+		srvLine = fmt.Sprintf("c9srvd %s %d %d", hx(wire), base, kq)
+	}
+	Stat(fmt.Sprintf("request-read-chunk:%d", kq))
 	Case(srvLine, out)
 	if err != nil || sctx == nil {
 		c9Fail("ReadRequestHeader failed on a written request header: "+clip(out), srvLine, map[string]interface{}{"got": out})
@@ -413,6 +434,14 @@ func c9Call(r *Rng) {
 
 	// ---- handler sets response headers, reply on the wire ----
 	R := genHeaders(r, true)
+	if r.Chance(30) {
+		t, shape := c9PickSize(r, 1<<17)
+		if shape == "many" && t > 9000 {
+			t = 8192 - 160 + r.Intn(320)
+		}
+		Stat("pure-response-block:" + c9SizeClass(t) + "/" + shape)
+		R = c9SizedHeaders(r, t, shape, "r")
+	}
 	delete(R, "_opid")
 	delete(R, "_cid")
 	rRegion := true
@@ -465,8 +494,13 @@ func c9Call(r *Rng) {
 	// ---- caller reads the reply ----
 	before := ctx.ResponseHeaders()
 	reqBefore := ctx.RequestHeaders()
+	kp := c9Chunk(r)
 	rspLine := "c9rsp " + hx(wire2) + " " + pairs(before)
-	out, rest2, err := c9Rsp(fac.f, ctx, wire2)
+	if kp > 0 {
+		rspLine = fmt.Sprintf("c9rspd %s %s %d", hx(wire2), pairs(before), kp)
+	}
+	Stat(fmt.Sprintf("response-read-chunk:%d", kp))
+	out, rest2, err := c9RspK(fac.f, ctx, wire2, kp)
 	Case(rspLine, out)
 	after := ctx.ResponseHeaders()
 	why := ""
@@ -697,13 +731,17 @@ func init() {
 		}
 		return c9CliOut(ctx), ok
 	}
-	lineOps["c9srv"] = func(args []string) (string, bool) {
-		if len(args) != 2 {
+	srvOp := func(args []string) (string, bool) {
+		if len(args) != 2 && len(args) != 3 {
 			return "bad-op", true
 		}
 		ctr, _ := strconv.ParseUint(args[1], 10, 64)
 		wire := unhx(args[0])
-		out, sctx, rest, base, err := c9Srv(c9Factories[0].f, wire, &ctr)
+		k := 0
+		if len(args) == 3 {
+			k, _ = strconv.Atoi(args[2])
+		}
+		out, sctx, rest, base, err := c9SrvK(c9Factories[0].f, wire, &ctr, k)
 		ok := !bad(out)
 		// property on a replayed request: what a spec-decoder sees on the wire is what the handler sees
 		if l, p, dec := specDecode(wire); dec && ok {
@@ -748,8 +786,8 @@ func init() {
 		}
 		return "ok " + pairs(got), ok
 	}
-	lineOps["c9rsp"] = func(args []string) (string, bool) {
-		if len(args) != 2 {
+	rspOp := func(args []string) (string, bool) {
+		if len(args) != 2 && len(args) != 3 {
 			return "bad-op", true
 		}
 		ctx := frugal.NewFContext("x")
@@ -758,7 +796,11 @@ func init() {
 			ctx.AddResponseHeader(k, resp[k])
 		}
 		wire := unhx(args[0])
-		out, rest, err := c9Rsp(c9Factories[0].f, ctx, wire)
+		kk := 0
+		if len(args) == 3 {
+			kk, _ = strconv.Atoi(args[2])
+		}
+		out, rest, err := c9RspK(c9Factories[0].f, ctx, wire, kk)
 		ok := !bad(out)
 		if l, p, dec := specDecode(wire); dec && ok {
 			if m, nodup := listToMap(l); nodup {
@@ -816,4 +858,6 @@ func init() {
 		}
 		return o, ok
 	}
+	lineOps["c9srv"], lineOps["c9srvd"] = srvOp, srvOp
+	lineOps["c9rsp"], lineOps["c9rspd"] = rspOp, rspOp
 }
